@@ -152,6 +152,26 @@ def strip(s):
     return _norm(parts)
 
 
+def isspace(I, s):
+    """str.isspace(): non-empty and nothing but whitespace.  A number token is never blank; a symbolic string token stands for a
+    blank-free token, so it contributes nothing exactly when it is empty (decided by a branch on its length)."""
+    lits = [p for p in s.parts if isinstance(p, str)]
+    if any(c not in WS for p in lits for c in p):
+        return False
+    for p in s.parts:
+        if isinstance(p, str):
+            continue
+        if p.kind != "str" or not isinstance(p.value, SV):
+            if isinstance(p.value, str) and p.kind == "str":
+                if p.value.strip(WS) != "":
+                    return False
+                continue
+            return False
+        if not I.st.branch(z3.Length(p.value.z) == 0, "symbolic token is empty"):
+            return False
+    return any(len(p) > 0 for p in lits)
+
+
 def split(I, s, maxsplit=-1):
     """str.split() with whitespace separator"""
     toks, cur = [], []
